@@ -255,10 +255,10 @@ def run(ctx):
         "input_distribution": {k: (dict(v) if isinstance(v, Counter) else v) for k, v in dist.items()},
         "rejected_configurations": rejected[:40],
         "rejected_configurations_count": len(rejected),
-        "finding_candidates": candidates[:10],
-        "finding_candidates_count": len(candidates),
+        "finding_candidates": T.wide_rand_probe() + candidates[:10],
+        "finding_candidates_count": len(candidates) + len(T.wide_rand_probe()),
     })
-    ctx.rule = ("runs: the whole grid algorithm(15) x variable type(7 incl. mixed Binary+Integer and very narrow Real ranges; Real only for GDE3/OMOPSO/SMPSO/CMAES) x "
+    ctx.rule = ("runs: the whole grid algorithm(15) x variable type(10 incl. mixed Binary+Integer, very narrow and very wide Real ranges, power-of-two Integer ranges, a user-defined ScaledReal type; Real only for GDE3/OMOPSO/SMPSO/CMAES) x "
                 "{unconstrained, constrained} x {min, max} x {default, explicit operator} (thorough: x6), evaluator/seed/size/scripted-extreme-"
                 "probability from ctx.rng, plus heavy-extreme-draw (p=0.5, 0.9), restart and injected-population specials; every call of the "
                 "user function is logged; non-trivial run = >= 10 calls, distinct by configuration incl. seed. Function cases: registry = "
